@@ -36,7 +36,7 @@ func c42(r *core.Run) {
 	r.Explanation = "Decided clauses: (R1) the simple-type bimap pairs every cadence.XType with SimpleTypeX of the same name, each SimpleType constant is inserted exactly once, and both lookup functions go through that one bimap; " +
 		"(R2) CCF CBOR tag numbers and simple-type IDs equal the pinned values; (R3) every CBOR tag the encoder writes is accepted by a case of the decoder and every tag the decoder accepts is written by the encoder; " +
 		"(R4) each of the five encoder sites that sort (dictionary pairs, composite fields, typedefs, intersection types, entitlements) and each of the five decoder sites that enforce bytewise order still exist, " +
-		"and a failed order test in the decoder leads to a returned error."
+		"and a failed order test in the decoder leads to a returned error. (R8) no error of an inner encode/decode step of encoding/ccf is dropped or swallowed beyond the pinned baseline."
 	r.NotDecided = "canonicity and round-trip equality on values; that the decoder never crashes (it deliberately re-panics Go run-time errors)."
 	w := r.W
 	p := w.Pkg("encoding/ccf")
@@ -264,6 +264,8 @@ func c42(r *core.Run) {
 		}
 	}
 	r.Floor("R6.traversal", 2)
+	// shared ERR rule restricted to this codec: a failure of an inner encode/decode step must not be dropped
+	errDiscipline(r, "R8.errdrop", "encoding/ccf functions", func(fn *ssa.Function) bool { return fn.Pkg != nil && fn.Pkg.Pkg.Path() == mod+"/encoding/ccf" }, 100)
 }
 
 func isLenCall(e ast.Expr) bool {
